@@ -234,18 +234,25 @@ def transform_meshes(
         if w < 50 or h < 50:
             return True
 
-        xc = quad[0] + w / 2.0 - 0.5
-        yc = quad[1] + h / 2.0 - 0.5
+        # check the center of the quad and the centers of its four quarters:
+        # a transformation that is symmetric about the center of the quad
+        # (e.g. the whole world between EPSG:4326 and EPSG:3857) has no
+        # error at the center but large errors everywhere else
+        for fx, fy in ((0.5, 0.5), (0.25, 0.25), (0.75, 0.25), (0.25, 0.75), (0.75, 0.75)):
+            xc = quad[0] + w * fx - 0.5
+            yc = quad[1] + h * fy - 0.5
 
-        # coordinate for the center of the quad
-        dst_w = to_dst_w((xc, yc))
+            # coordinate for this point of the quad
+            dst_w = to_dst_w((xc, yc))
 
-        # actual coordinate for the center of the quad
-        src_px = center_quad_transform(quad, src_quad)
-        real_dst_w = src_srs.transform_to(dst_srs, to_src_w(src_px))
+            # actual coordinate for this point of the quad
+            src_px = quad_transform(quad, src_quad, fx, fy)
+            real_dst_w = src_srs.transform_to(dst_srs, to_src_w(src_px))
 
-        err = max(abs(dst_w[0] - real_dst_w[0]), abs(dst_w[1] - real_dst_w[1]))
-        return err < max_err
+            err = max(abs(dst_w[0] - real_dst_w[0]), abs(dst_w[1] - real_dst_w[1]))
+            if not err < max_err:
+                return False
+        return True
 
     # recursively add meshes. divide each quad into four sub quad till
     # accuracy is good enough.
@@ -265,6 +272,16 @@ def center_quad_transform(quad, src_quad):
     """
     center_quad_transfrom transforms the center pixel coordinates
     from ``quad`` to ``src_quad`` by using affine transformation
+    as used by PIL.Image.transform.
+    """
+    return quad_transform(quad, src_quad, 0.5, 0.5)
+
+
+def quad_transform(quad, src_quad, fx, fy):
+    """
+    quad_transfrom transforms the pixel coordinates of the point at
+    the fraction ``fx``, ``fy`` of the width and height of ``quad``
+    to ``src_quad`` by using affine transformation
     as used by PIL.Image.transform.
     """
     w = quad[2] - quad[0]
@@ -287,8 +304,8 @@ def center_quad_transform(quad, src_quad):
     a6 = (sw[1] - y0) * At
     a7 = (se[1] - sw[1] - ne[1] + y0) * As * At
 
-    x = w / 2.0 - 0.5
-    y = h / 2.0 - 0.5
+    x = w * fx - 0.5
+    y = h * fy - 0.5
 
     return (
         a0 + a1*x + a2*y + a3*x*y,
